@@ -1,6 +1,7 @@
 import RdsProofs.Reach
 import RdsProofs.WordedProofs
 import RdsProofs.LinkProofs
+import RdsProofs.AuditFrames
 /-!
 # Property C17 — settings are independent, clamped, and only changed by their setters
 
@@ -11,6 +12,12 @@ and is untouched by parsing (`Mon.step`).
 -- THEOREM: RDS.C17
 -- THEOREM: RDS.C17_worded
 -- THEOREM: RDS.C17_clamp
+-- THEOREM: RDS.C17_settings_frame
+-- THEOREM: RDS.C17_setExt_only
+-- THEOREM: RDS.C17_setCorr_only
+-- THEOREM: RDS.C17_setProg_only
+-- THEOREM: RDS.C17_other_keep_settings
+-- THEOREM: RDS.C17_settings_frame_history
 namespace RDS
 
 /-- C17 for every history and every next call -/
